@@ -109,12 +109,12 @@ class FileIO:
     def _tok_real(s, v, width=0):
         s.phs.append(v if is_sym(v) else z3.RealVal(Fraction(v)))
         t = '$%d' % (len(s.phs) - 1)
-        if width > len(t): t = '$' + '0' * (width - len(t)) + t[1:]
+        if width > len(t): t = ' ' * (width - len(t)) + t
         return list(t.encode())
     def _tok_int(s, v, width=0, left=False):
         if is_sym(v):
             s.iphs.append(v); t = '~%d' % (len(s.iphs) - 1)
-            if width > len(t): t = '~' + '0' * (width - len(t)) + t[1:]
+            if width > len(t): t = ' ' * (width - len(t)) + t
         else:
             t = str(symx.sgn64(v))
             if width > len(t): t = (t + ' ' * (width - len(t))) if left else (' ' * (width - len(t)) + t)
@@ -183,6 +183,15 @@ class FileIO:
         fmt = it.cstr(a[1]).decode('latin1'); b = s.format(it, fmt, a[2:])
         if f is not None: f['buf'] += b
         return len(b)
+    def m_sprintf(s, it, a):
+        fmt = it.cstr(a[1]).decode('latin1'); b = s.format(it, fmt, a[2:])
+        for i, c in enumerate(b): it.store(Ptr(a[0].obj, a[0].off + i), c, 1)
+        it.store(Ptr(a[0].obj, a[0].off + len(b)), 0, 1); return len(b)
+    def m_is_open(s, it, a):
+        p = a[0]
+        for (obj, off), st in s.streams.items():
+            if obj == p.obj and off <= p.off < off + st['ios']: return 1 if st['open'] else 0
+        return 0
     def m_fputc(s, it, a):
         f = s.files.get(a[1].obj) if isinstance(a[1], Ptr) else None
         if f is not None: f['buf'].append(a[0] & 0xff)
@@ -208,6 +217,16 @@ class FileIO:
         mm = re.match(rb'\s*[-+]?(\d+\.?\d*([eE][-+]?\d+)?|\.\d+([eE][-+]?\d+)?)', b)
         if not mm: end(0); return Fraction(0) if it.fpmode == 'real' else 0.0
         end(mm.end()); return Fraction(mm.group(0).strip().decode()) if it.fpmode == 'real' else float(mm.group(0))
+    def m_lexcast_double(s, it, a):
+        # votca::tools::lexical_cast<double>(const std::string&, const std::string& error): the decimal conversion of one token
+        b = bytes(c & 0xff for c in models.sget(it, a[0]) if not is_sym(c))
+        mm = re.fullmatch(rb'\s*\$(\d+)\s*', b)
+        if mm: return s.phs[int(mm.group(1))]
+        mm = re.fullmatch(rb'\s*~(\d+)\s*', b)
+        if mm: v = s.iphs[int(mm.group(1))]; return z3.ToReal(v) if is_sym(v) else Fraction(v)
+        mm = re.fullmatch(rb'\s*[-+]?(\d+\.?\d*([eE][-+]?\d+)?|\.\d+([eE][-+]?\d+)?)\s*', b)
+        if not mm: raise symx.Thrown(NULL)
+        return Fraction(b.strip().decode()) if it.fpmode == 'real' else float(b)
     def m_strtol(s, it, a):
         sp, endp = a[0], a[1]; b = it.cstr(sp)
         def end(n):
@@ -236,6 +255,9 @@ class FileIO:
             're:^@_ZSt16__ostream_insertIcSt11char_traitsIcEE': s.m_ins_str, 're:^@_ZNSo3putEc': s.m_put,
             're:^@_ZSt9use_facetISt5ctypeIcEERKT_RKSt6locale': lambda it, a: s._facet(it), 're:^@_ZNKSt5ctypeIcE13_M_widen_initEv': none,
             '@fopen': s.m_fopen, '@fclose': s.m_fclose, '@fflush': s.m_fflush, '@fprintf': s.m_fprintf, '@fputc': s.m_fputc, '@putc': s.m_fputc, '@fwrite': s.m_fwrite,
+            '@sprintf': s.m_sprintf, 're:^@_ZNKSt12__basic_fileIcE7is_openEv': s.m_is_open,
+            're:^@_ZNSt8ios_base7failureB5cxx11C[12]E': none, 're:^@_ZNSt8ios_base7failureB5cxx11D[012]Ev': none, '@_ZSt17iostream_categoryv': lambda it, a: NULL,
+            're:^@_ZN5votca5tools12lexical_castIdNSt7__cxx1112basic_stringIcSt11char_traitsIcESaIcEEEEET_RKT0_RKS7_': s.m_lexcast_double,
             '@strtod': s.m_strtod, '@strtol': s.m_strtol, '@__errno_location': m_errno,
             '@isspace': lambda it, a: int(chr(a[0] & 0xff) in ' \t\n\v\f\r'), '@ispunct': lambda it, a: int(chr(a[0] & 0xff) in '!"#$%&\'()*+,-./:;<=>?@[\\]^_`{|}~'),
         })
